@@ -10,6 +10,16 @@ use vstd::prelude::*;
 mod ext {
     #[derive(Clone, Copy, PartialEq, Eq)]
     pub struct U256(pub [u128; 2]);
+    // robustness shim (NO contract): narrowing conversions an edit might route a 256-bit length through
+    impl U256 {
+        pub fn as_usize(&self) -> usize { unimplemented!() }
+        pub fn as_u64(&self) -> u64 { unimplemented!() }
+        pub fn as_u32(&self) -> u32 { unimplemented!() }
+        pub fn as_u128(&self) -> u128 { unimplemented!() }
+    }
+    impl TryFrom<U256> for usize { type Error = core::num::TryFromIntError; fn try_from(_v: U256) -> Result<usize, Self::Error> { unimplemented!() } }
+    impl TryFrom<U256> for u64 { type Error = core::num::TryFromIntError; fn try_from(_v: U256) -> Result<u64, Self::Error> { unimplemented!() } }
+    impl TryFrom<U256> for u32 { type Error = core::num::TryFromIntError; fn try_from(_v: U256) -> Result<u32, Self::Error> { unimplemented!() } }
     pub struct TypeCheckerState;
 }
 use ext::{TypeCheckerState, U256};
@@ -28,6 +38,14 @@ impl vstd::std_specs::cmp::PartialEqSpecImpl for U256 {
     open spec fn eq_spec(&self, other: &U256) -> bool { *self == *other }
 }
 pub assume_specification[ <U256 as core::cmp::PartialEq>::eq ](a: &U256, b: &U256) -> (r: bool);
+// no contract: anything may come out of a narrowing conversion
+pub assume_specification[ U256::as_usize ](a: &U256) -> (r: usize);
+pub assume_specification[ U256::as_u64 ](a: &U256) -> (r: u64);
+pub assume_specification[ U256::as_u32 ](a: &U256) -> (r: u32);
+pub assume_specification[ U256::as_u128 ](a: &U256) -> (r: u128);
+pub assume_specification[ <usize as core::convert::TryFrom<U256>>::try_from ](a: U256) -> (r: Result<usize, <usize as core::convert::TryFrom<U256>>::Error>);
+pub assume_specification[ <u64 as core::convert::TryFrom<U256>>::try_from ](a: U256) -> (r: Result<u64, <u64 as core::convert::TryFrom<U256>>::Error>);
+pub assume_specification[ <u32 as core::convert::TryFrom<U256>>::try_from ](a: U256) -> (r: Result<u32, <u32 as core::convert::TryFrom<U256>>::Error>);
 
 //@include word_use/items.rs
 //@dropped merge: the three `Packed x _` arms (Packed x DynamicArray|Bytes, Packed x Packed, Packed x Word) are R-OPAQUE: replaced by an external_body stand-in with NO postcondition (itertools sorted_by_key/unique/collect_vec, closures, fresh type-variable allocation through &mut TypeCheckerState); nothing is claimed for any operand pair with a Packed side (their delegating arms `(DynamicArray|Bytes|Word, Packed) => merge(right, left, ..)` stay verbatim and are covered by the termination measure only)
@@ -392,42 +410,42 @@ vx_panic()
 //@spec
     requires
         // C14: equalities are turned into unions before any merge; an `Equal` operand is a bug (the code panics)
-        !(left is Equal), !(right is Equal),                                                      //@ob C14.mg.merge.no_equal_operand
+        !(left is Equal), !(right is Equal),                                                      //@ob C14.mg.merge.no_equal_operand C16.mg.merge.no_equal_operand_underlies_the_laws
     ensures
         // ---- C15 per class of operand pair (so that a failure names the class) ----
         frag(abs(left)) && frag(abs(right)) && (left is Conflict || right is Conflict)
-            ==> m.expression is Conflict,                                                              //@ob C15.mg.merge.conflict_absorbs
+            ==> m.expression is Conflict,                                                              //@ob C15.mg.merge.conflict_absorbs C16.mg.merge.conflict_absorbs_underlies_the_laws
         frag(abs(left)) && frag(abs(right)) && (left is Any || right is Any)
-            ==> abs(m.expression) == join_te(abs(left), abs(right)),                                   //@ob C15.mg.merge.any_identity
+            ==> abs(m.expression) == join_te(abs(left), abs(right)),                                   //@ob C15.mg.merge.any_identity C16.mg.merge.any_identity_underlies_the_laws
         left is Word && right is Word
-            ==> abs(m.expression) == join_te(abs(left), abs(right)),                                   //@ob C15.mg.merge.word_word
+            ==> abs(m.expression) == join_te(abs(left), abs(right)),                                   //@ob C15.mg.merge.word_word C16.mg.merge.word_word_underlies_the_laws
         (left is Word && right is Bytes) || (left is Bytes && right is Word)
-            ==> abs(m.expression) == join_te(abs(left), abs(right)),                                   //@ob C15.mg.merge.word_bytes
+            ==> abs(m.expression) == join_te(abs(left), abs(right)),                                   //@ob C15.mg.merge.word_bytes C16.mg.merge.word_bytes_underlies_the_laws
         (left is Word && right is DynamicArray) || (left is DynamicArray && right is Word)
-            ==> abs(m.expression) == join_te(abs(left), abs(right)),                                   //@ob C15.mg.merge.word_dyn
+            ==> abs(m.expression) == join_te(abs(left), abs(right)),                                   //@ob C15.mg.merge.word_dyn C16.mg.merge.word_dyn_underlies_the_laws
         (left is Bytes && right is DynamicArray) || (left is DynamicArray && right is Bytes) || (left is Bytes && right is Bytes)
-            ==> abs(m.expression) == join_te(abs(left), abs(right)),                                   //@ob C15.mg.merge.bytes_dyn
+            ==> abs(m.expression) == join_te(abs(left), abs(right)),                                   //@ob C15.mg.merge.bytes_dyn C16.mg.merge.bytes_dyn_underlies_the_laws
         left is DynamicArray && right is DynamicArray
-            ==> joins(abs(m.expression), abs(left), abs(right)),                                   //@ob C15.mg.merge.dyn_dyn C14.mg.merge.dyn_dyn
+            ==> joins(abs(m.expression), abs(left), abs(right)),                                   //@ob C15.mg.merge.dyn_dyn C14.mg.merge.dyn_dyn C16.mg.merge.dyn_dyn_underlies_the_laws
         left is FixedArray && right is FixedArray
-            ==> joins(abs(m.expression), abs(left), abs(right)),                                   //@ob C15.mg.merge.fixed_fixed C14.mg.merge.fixed_fixed
+            ==> joins(abs(m.expression), abs(left), abs(right)),                                   //@ob C15.mg.merge.fixed_fixed C14.mg.merge.fixed_fixed C16.mg.merge.fixed_fixed_underlies_the_laws
         left is Mapping && right is Mapping
-            ==> joins(abs(m.expression), abs(left), abs(right)),                                   //@ob C15.mg.merge.map_map C14.mg.merge.map_map
+            ==> joins(abs(m.expression), abs(left), abs(right)),                                   //@ob C15.mg.merge.map_map C14.mg.merge.map_map C16.mg.merge.map_map_underlies_the_laws
         // ---- the contradictions C15/C14 name, stated directly ----
         (left is Mapping && (right is Word || right is FixedArray || right is DynamicArray || right is Bytes))
             || (right is Mapping && (left is Word || left is FixedArray || left is DynamicArray || left is Bytes))
-            ==> m.expression is Conflict,                                                              //@ob C15.mg.merge.mapping_vs_array_or_word
+            ==> m.expression is Conflict,                                                              //@ob C15.mg.merge.mapping_vs_array_or_word C16.mg.merge.mapping_vs_array_or_word_underlies_the_laws
         left is Word && right is Word && left->width is Some && right->width is Some && left->width != right->width
-            ==> m.expression is Conflict,                                                              //@ob C15.mg.merge.two_different_widths
+            ==> m.expression is Conflict,                                                              //@ob C15.mg.merge.two_different_widths C16.mg.merge.two_different_widths_underlies_the_laws
         left is Word && right is Word && join_use(left->usage, right->usage) is None
-            ==> m.expression is Conflict,                                                              //@ob C15.mg.merge.incompatible_usages
+            ==> m.expression is Conflict,                                                              //@ob C15.mg.merge.incompatible_usages C16.mg.merge.incompatible_usages_underlies_the_laws
         left is FixedArray && right is FixedArray && left->length != right->length
-            ==> m.expression is Conflict && m.equalities@.len() == 0,                                  //@ob C14.mg.merge.fixed_length_clash
+            ==> m.expression is Conflict && m.equalities@.len() == 0,                                  //@ob C14.mg.merge.fixed_length_clash C16.mg.merge.fixed_length_clash_underlies_the_laws
         // ---- the whole fragment (the contract the laws below are stated over) ----
         frag(abs(left)) && frag(abs(right)) ==> joins(abs(m.expression), abs(left), abs(right)),       //@ob C15.mg.merge.join C16.mg.merge.join
         frag(abs(left)) && frag(abs(right)) ==> emits(m.equalities@, abs(left), abs(right)),           //@ob C14.mg.merge.equalities C16.mg.merge.equalities
         frag(abs(left)) && frag(abs(right)) ==> m.judgements@.len() == 0 && m.ty_vars@.len() == 0,     //@ob C16.mg.merge.no_side_output
-        frag(abs(left)) && frag(abs(right)) ==> !(m.expression is Equal),                              //@ob C14.mg.merge.never_equal
+        frag(abs(left)) && frag(abs(right)) ==> !(m.expression is Equal),                              //@ob C14.mg.merge.never_equal C16.mg.merge.never_equal_underlies_the_laws
     decreases flips(left, right),
 //@proof entry
     proof { if left is Word && right is Word { lemma_join_use_closed_form(left->usage, right->usage); } }
